@@ -56,7 +56,7 @@ class Param:
         base = {"native": self.t, "bool": "bool", "char": "char", "cstr": "char", "string": "std::string", "enum": "Color",
                 "struct": "Pt", "class": self.t}[self.fam]
         c = "const " if self.const else ""
-        return c + base + {"val": " ", "ptr": " *", "ref": " &"}[self.mode]
+        return c + base + {"val": " ", "ptr": " *", "ref": " &", "pp": " **", "pr": " *&"}[self.mode]
 
     def cxx_decl(self):
         return self.cxx_type() + self.name
@@ -219,7 +219,10 @@ def gen_param(r, spec, i, allow_class=True, allow_struct=True):
     n = "a%d" % i
     if fam == "native":
         t = r.choice(["int", "long", "short", "double", "int", "double"])
-        mode = r.choice(["val", "val", "ptr", "ref"])
+        mode = r.choice(["val", "val", "val", "ptr", "ptr", "ref", "ref", "pp", "pr"])
+        if mode in ("pp", "pr"):
+            # pointer to pointer / reference to pointer: the callee reads through or re-seats the caller's pointer
+            return Param(fam, t, mode, r.choice(["in", "out", "inout"]) if mode == "pp" else r.choice(["out", "inout"]), n)
         if mode == "val":
             return Param(fam, t, "val", "in", n)
         intent = r.choice(["in", "out", "inout"])
@@ -235,7 +238,9 @@ def gen_param(r, spec, i, allow_class=True, allow_struct=True):
     if fam == "cstr":
         return Param(fam, "char", "ptr", "in", n, const=True)
     if fam == "string":
-        mode = r.choice(["ref", "ref", "ptr"])
+        mode = r.choice(["ref", "ref", "ptr", "val"])
+        if mode == "val":
+            return Param(fam, "string", "val", "in", n)     # std::string by value: C passes char *
         intent = r.choice(["in", "in", "out", "inout"])
         return Param(fam, "string", mode, intent, n, const=(intent == "in"))
     if fam == "enum":
@@ -435,7 +440,9 @@ def fixed_spec(name="ogf"):
                      Param("struct", "Pt", "ref", "in", "a3", const=True)], ("struct",)),
         Func("sw5", [Param("enum", "Color", "val", "in", "a0"), Param("enum", "Color", "val", "in", "a1")], ("structptr",)),
         Func("sw6", [K("a0", "ptr"), K("a1", "ptr"), K("a2", "ref", const=True)], ("classcref", "K0")),
-        Func("sw7", [], ("cstr",)),
+        Func("sw7", [Param("string", "string", "val", "in", "a0"), Param("string", "string", "val", "in", "a1")], ("cstr",)),
+        Func("sw9", [N("int", "a0", "pp", "out"), N("int", "a1", "pp", "inout"), N("double", "a2", "pr", "out"),
+                     N("double", "a3", "pr", "inout"), N("int", "a4", "pp", "in")], ("void",)),
         Func("sw8", [], ("nativeptr", "double")),
         Func("df", [N("int", "a0")], ("native", "int"), defaults=[(N("int", "d0"), "7"), (N("long", "d1"), "9")]),
         Func("ov", [N("int", "a0")], ("native", "int"), fmt_suffix="_int"),
